@@ -44,8 +44,8 @@ try:
                  "--deselect", "tests/test_version.py::test_version"])
         tail = t.stdout.strip().splitlines()[-1] if t.stdout.strip() else ""
         out["suite"] = tail
-        out["suite_failed"] = [l for l in t.stdout.splitlines() if l.startswith("FAILED") or l.startswith("ERROR")][:6]
-        if t.returncode != 0 and len(out["suite_failed"]) <= 3:
+        out["suite_failed"] = [l for l in t.stdout.splitlines() if l.startswith("FAILED") or l.startswith("ERROR")][:14]
+        if t.returncode != 0 and len(out["suite_failed"]) <= 12:
             # under heavy machine load hypothesis deadline / health-check failures occur: re-run just the failing tests serially
             ids = [l.split()[1] for l in out["suite_failed"]]
             t2 = run(["/venv/bin/python", "-m", "pytest", "-q", "-p", "no:cacheprovider", "--timeout=900", "-n", "0"] + ids)
